@@ -507,6 +507,32 @@ FAMILIES = {
 }
 
 
+def alias_programs(seed, tier):
+    """ALIASING family (generator of the cluster check, checks/gen_cluster.py alias_seq): a command
+    that stores several of its arguments (MSET, RPUSH, SADD, HSET, ZADD, XADD, SET...), then a command
+    that grows or rewrites an EARLIER stored item in place (APPEND, SETRANGE, INCR*, LSET, HSET...),
+    then reads of every key.  If the arguments handed to the executors shared a backing buffer, the
+    grown item would run over its neighbours.  Each program has its own key tag."""
+    from . import gen_cluster
+    r = random.Random(seed * 982451653 + 29)
+    progs, i = [], 0
+    for st in gen_cluster.STORES:
+        for mu in gen_cluster.MUTS:
+            shapes = ((3, 6), (1, 24)) if tier != "quick" else (((3, 6), (1, 24))[(i // 2) % 2],)
+            for short, grow in shapes:
+                progs.append(Program("alias%d" % i, gen_cluster.alias_seq(r, b"al%d" % i, st, mu, short, grow), ["aliasing"]))
+                i += 1
+    w = b"al%dw" % i
+    progs.append(Program("alias_witness", [[b"MSET", w + b":1", b"ann", w + b":2", b"bob", w + b":3", b"joe"], [b"APPEND", w + b":1", b"-jones"],
+                                           [b"GET", w + b":2"], [b"GET", w + b":3"], [b"MGET", w + b":1", w + b":2", w + b":3"]], ["aliasing"]))
+    for j in range(30 if tier == "quick" else 300):
+        cmds = []
+        for t in range(r.randrange(1, 4)):
+            cmds += gen_cluster.alias_seq(r, b"ar%d_%d" % (j, t))
+        progs.append(Program("aliasr%d" % j, cmds, ["aliasing"]))
+    return progs
+
+
 class Program:
     def __init__(self, name, cmds, families=()):
         self.name, self.cmds, self.families = name, cmds, list(families)
